@@ -14,16 +14,76 @@ From Eino Require Import Base.Util Model.StateLock Model.StateLockLTS Model.Stat
 From Eino Require Import Proofs.StatePlumb.
 From Eino Require Gen.StatePlumb.
 
-Theorem gen_start_block_agrees : Gen.StatePlumb.start_block = Model.StatePlumb.start_block.
-Proof. reflexivity. Qed.
-Theorem gen_resume_blocks_agree :
-  Gen.StatePlumb.resume_sub_block = Model.StatePlumb.resume_sub_block /\
-  Gen.StatePlumb.resume_top_block = Model.StatePlumb.resume_top_block.
-Proof. split; reflexivity. Qed.
-Theorem gen_save_blocks_agree :
-  Gen.StatePlumb.save_block_interrupt = Model.StatePlumb.save_block /\
-  Gen.StatePlumb.save_block_rerun = Model.StatePlumb.save_block.
-Proof. split; reflexivity. Qed.
+(* Agreement is agreement of BEHAVIOUR: for every environment (graph declares state or not, what its
+   generator returns, the caller's modifier) and every state (context binding, holders, cp.State …) the
+   source's block and the model's compute the same state (or both panic).  So the same statements cut into
+   helpers (inlined by the extractor), a test nested instead of conjoined, an early return instead of an
+   enclosing if still agree; a block that creates, saves or restores something else does not. *)
+Ltac c11_plumb_agree :=
+  intros S env [ctx objs cp restored modcalls];
+  unfold pexec, Gen.StatePlumb.start_block, Gen.StatePlumb.resume_sub_block, Gen.StatePlumb.resume_top_block,
+    Gen.StatePlumb.save_block_interrupt, Gen.StatePlumb.save_block_rerun,
+    Model.StatePlumb.start_block, Model.StatePlumb.resume_sub_block, Model.StatePlumb.resume_top_block,
+    Model.StatePlumb.resume_block, Model.StatePlumb.save_block;
+  destruct env as [hg g [m|] sh]; destruct hg; destruct cp as [v|]; cbn;
+  repeat (match goal with
+          | |- context [ctx ?k] => destruct (ctx k) as [?|] eqn:?; cbn
+          | |- context [nth_error ?l ?o] => destruct (nth_error l o) as [?|] eqn:?; cbn
+          end);
+  reflexivity.
+
+Theorem gen_start_block_agrees : forall S env st,
+  pexec S env Gen.StatePlumb.start_block st = pexec S env Model.StatePlumb.start_block st.
+Proof. c11_plumb_agree. Qed.
+Lemma gen_resume_sub_agrees : forall S env st,
+  pexec S env Gen.StatePlumb.resume_sub_block st = pexec S env Model.StatePlumb.resume_sub_block st.
+Proof. c11_plumb_agree. Qed.
+Lemma gen_resume_top_agrees : forall S env st,
+  pexec S env Gen.StatePlumb.resume_top_block st = pexec S env Model.StatePlumb.resume_top_block st.
+Proof. c11_plumb_agree. Qed.
+Theorem gen_resume_blocks_agree : forall S env st,
+  pexec S env Gen.StatePlumb.resume_sub_block st = pexec S env Model.StatePlumb.resume_sub_block st /\
+  pexec S env Gen.StatePlumb.resume_top_block st = pexec S env Model.StatePlumb.resume_top_block st.
+Proof. intros; split; [apply gen_resume_sub_agrees | apply gen_resume_top_agrees]. Qed.
+Lemma gen_save_interrupt_agrees : forall S env st,
+  pexec S env Gen.StatePlumb.save_block_interrupt st = pexec S env Model.StatePlumb.save_block st.
+Proof. c11_plumb_agree. Qed.
+Lemma gen_save_rerun_agrees : forall S env st,
+  pexec S env Gen.StatePlumb.save_block_rerun st = pexec S env Model.StatePlumb.save_block st.
+Proof. c11_plumb_agree. Qed.
+Theorem gen_save_blocks_agree : forall S env st,
+  pexec S env Gen.StatePlumb.save_block_interrupt st = pexec S env Model.StatePlumb.save_block st /\
+  pexec S env Gen.StatePlumb.save_block_rerun st = pexec S env Model.StatePlumb.save_block st.
+Proof. intros; split; [apply gen_save_interrupt_agrees | apply gen_save_rerun_agrees]. Qed.
+
+(* a block followed by a block *)
+Lemma c11_pexec_fuel_app : forall S env n a b st,
+  pexec_fuel S env n (a ++ b) st =
+  match pexec_fuel S env n a st with Some st' => pexec_fuel S env n b st' | None => None end.
+Proof.
+  intros S env n a; induction a as [|s a IH]; intros b st; cbn; [reflexivity|].
+  destruct (pexec1 S env n s st); [apply IH | reflexivity].
+Qed.
+Lemma c11_pexec_app : forall S env a b st,
+  pexec S env (a ++ b) st = match pexec S env a st with Some st' => pexec S env b st' | None => None end.
+Proof. intros; apply c11_pexec_fuel_app. Qed.
+
+(* save block followed by resume block: the source's and the model's *)
+Lemma gen_save_then_resume_agrees : forall sb rb,
+  sb = Gen.StatePlumb.save_block_interrupt \/ sb = Gen.StatePlumb.save_block_rerun ->
+  rb = Gen.StatePlumb.resume_sub_block \/ rb = Gen.StatePlumb.resume_top_block ->
+  exists rb', (rb' = resume_sub_block \/ rb' = resume_top_block) /\
+              forall S env st, pexec S env (sb ++ rb) st = pexec S env (save_block ++ rb') st.
+Proof.
+  intros sb rb Hsb Hrb.
+  assert (Es : forall S env st0, pexec S env sb st0 = pexec S env save_block st0)
+    by (intros; destruct Hsb; subst sb; [apply gen_save_interrupt_agrees | apply gen_save_rerun_agrees]).
+  destruct Hrb; subst rb.
+  - exists resume_sub_block; split; [now left|]. intros S env st. rewrite !c11_pexec_app, Es.
+    destruct (pexec S env save_block st); [apply gen_resume_sub_agrees | reflexivity].
+  - exists resume_top_block; split; [now right|]. intros S env st. rewrite !c11_pexec_app, Es.
+    destruct (pexec S env save_block st); [apply gen_resume_top_agrees | reflexivity].
+Qed.
 
 (* the start of an instance in the transition system is the source's start block *)
 Theorem gen_new_inst_is_source_start_block :
@@ -53,10 +113,10 @@ Theorem gen_resume_step_is_source_blocks :
       (forall J, i_obj J = Some o -> i_obj (remap S X o (List.length (c_objs c)) J) = ps_ctx st' KState).
 Proof.
   intros S X gen hfun lout mrg f x0 sb rb c o om c' Hsb Hrb Hp.
-  destruct gen_save_blocks_agree as [E1 E2]. destruct gen_resume_blocks_agree as [E3 E4].
-  assert (Hs : sb = save_block) by (destruct Hsb; congruence).
-  assert (Hr : rb = resume_sub_block \/ rb = resume_top_block) by (destruct Hrb; [left|right]; congruence).
-  subst sb. eapply resume_step_is_save_then_resume_block; eauto.
+  destruct (gen_save_then_resume_agrees sb rb Hsb Hrb) as (rb' & Hrb' & E).
+  destruct (resume_step_is_save_then_resume_block S X gen hfun lout mrg f x0 rb' c o om c' Hrb' Hp)
+    as (r & st' & Hn & Hx & Hrest).
+  exists r, st'. split; [exact Hn|]. split; [rewrite E; exact Hx | exact Hrest].
 Qed.
 
 (* a graph that declares no state: nothing saved, context untouched on resume (F-C11a) *)
@@ -70,10 +130,8 @@ Theorem gen_stateless_graph_keeps_context :
                 ps_modcalls st' = ps_modcalls st /\ ps_restored st' = ps_restored st ++ [ps_ctx st KState].
 Proof.
   intros S sb rb g0 om st Hsb Hrb Hc.
-  destruct gen_save_blocks_agree as [E1 E2]. destruct gen_resume_blocks_agree as [E3 E4].
-  assert (Hs : sb = save_block) by (destruct Hsb; congruence).
-  assert (Hr : rb = resume_sub_block \/ rb = resume_top_block) by (destruct Hrb; [left|right]; congruence).
-  subst sb. now apply stateless_graph_keeps_context.
+  destruct (gen_save_then_resume_agrees sb rb Hsb Hrb) as (rb' & Hrb' & E).
+  rewrite E. now apply stateless_graph_keeps_context.
 Qed.
 
 (* non-vacuity: a run of a stateful graph, interrupted and resumed with a modifier, through the
